@@ -471,6 +471,17 @@ def _oversize_test(ctx, value):
 
 
 def _part_oversize(ctx, n):
+    if ctx.shard % 16 == 0:
+        # received frames longer than a writer may send (payload 65517..65531, length prefix up to ffff) at every
+        # position of the peek/unread loops: whatever a reader accepts it must be able to put back and read again
+        for size in (65517, 65520, 65530, 65531):
+            for pos in (0, 1, 2):
+                frames = [b"0005a", b"0006bc"][:pos] + [b"%04x" % (size + 4) + R.fill(size, "zero" if "zero" in R.FILLS else R.FILLS[0], size)] + [b"0005z", b"0000"]
+                stream = b"".join(frames)
+                for unread_mask, eof_mask in ((0xFFFF, 0x5555), (0x5555, 0xFFFF), (0, 0), (1 << pos, 0)):
+                    case = dict(stream=stream, sizes=[], cycle=[J.BIG], short_by=0, eof_mask=eof_mask, unread_mask=unread_mask)
+                    exec_decode(ctx, case)
+                    ctx.case(("big-recv", size, pos, unread_mask, eof_mask), nontrivial=True, labels=("decode-big-received-frame",))
     run_hypothesis(ctx, _oversize_strategy(), _oversize_test, max_examples=n)
 
 
